@@ -155,6 +155,16 @@ def cases(tier, seed):
                     out.append({"spec": spec, "cfg": cfg_p, "sc": sc, "f": [[kind, k]]})
             for k in range(1, min(base_p.fl.n_factor, 8) + 1):
                 out.append({"spec": spec, "cfg": cfg_p, "sc": sc, "lf": [k]})
+        if ci % 3 == 2 or ci == 0:
+            # every iteration displayed (display_interval = 0): the rows of failed attempts are formatted as well
+            cfg_d = dict(cfg); cfg_d["display_interval"] = 0.0
+            base_d = run_one(spec, cfg_d, sc)
+            for kind in KINDS:
+                lo = base_d.construct_counts.get(kind, 0) + 1
+                for k in range(lo, min(base_d.fp.counts[kind], lo + 11) + 1):
+                    out.append({"spec": spec, "cfg": cfg_d, "sc": sc, "f": [[kind, k]]})
+            for k in range(1, min(base_d.fl.n_factor, 8) + 1):
+                out.append({"spec": spec, "cfg": cfg_d, "sc": sc, "lf": [k]})
         # a user-supplied step-solver factory that reports failure on its k-th call (StepSolverError while a trial is set up)
         base_f = run_one(spec, cfg, sc, factory=())
         for k in range(1, min(base_f.factory.n, cap) + 1):
@@ -284,7 +294,7 @@ def run_case(case):
     for v in viol:
         if v["sig"] not in seen:
             seen.add(v["sig"]); vs.append(v)
-    return {"outcome": tag + ":" + oc, "key": f"{spec['tag']}|{G.cfg_key(cfg)}|{sorted((cfg.get('params') or {}).items())}|{sc is not None}|{case.get('f')}|{case.get('lf')}|{case.get('ls')}|{case.get('sf')}|{region}",
+    return {"outcome": tag + ":" + oc, "key": f"{spec['tag']}|{G.cfg_key(cfg)}|{sorted((cfg.get('params') or {}).items())}|{cfg.get('display_interval')}|{sc is not None}|{case.get('f')}|{case.get('lf')}|{case.get('ls')}|{case.get('sf')}|{region}",
             "violations": vs, "stats": {"fired": len(fired), "failed_trials": sum(1 for t in tr if t.failed)}}
 
 
